@@ -97,6 +97,24 @@ CHECKS["C15"] = dict(
     design="DESIGN.md §5 C15",
     technique="Coq proof (nested induction over chain dictionaries with a counter-threading invariant) + differential correspondence on parsed DOT + dot execution")
 
+CHECKS["C01"] = dict(
+    text=("Theorems over the model of parse() on the parsed statement list: one table per distinct mother in file order of first "
+          "occurrence, the first block of a repeated mother kept (empty blocks are tables), tables = those blocks with every line "
+          "once in order; per line bf = value of the literal, daughters verbatim, PHOTOS flag, model name, parameters in order "
+          "(numeric literal -> number, undefined word verbatim, absent list absent); exact values of every literal form. "
+          "PARTIAL: text -> statement list (Lark) is tied by correspondence on generated texts (all alphabet characters, every "
+          "published model name, all literal forms), not by a parsing theorem."),
+    design="DESIGN.md §5 C01",
+    technique="Coq proof (list induction: de-duplication keeps first occurrences; line resolution) + differential correspondence through the real parser")
+CHECKS["C05"] = dict(
+    text=("Theorem over the model of parse(): a file and its textual expansion (every Define'd name in a parameter list replaced "
+          "by its literal, textually negated after a leading minus; every ModelAlias use replaced by model + parameters) have "
+          "identical decay tables incl. copied/conjugated ones and errors, wherever definitions are placed and however often "
+          "used; last definition wins; undefined words verbatim; negating a literal's text negates its value. Unbounded. "
+          "PARTIAL front end as C01."),
+    design="DESIGN.md §5 C05",
+    technique="Coq proof (statement-list induction, dictionary last-wins lemma, literal negation lemma) + differential correspondence + expanded-file oracle")
+
 NOT_YET = {
 }
 
